@@ -169,7 +169,13 @@ def run_pool(desc):
             y_ref = np.round(y_ref)
             y_alt = np.where(np.isnan(y_ref), REG_SENTINELS["num"], y_ref).astype(np.int64)
             enc = "num_int"
-        runs = [("nan", lambda: call(y_ref, np.nan, [0, 1, 2])), (enc, lambda: call(y_alt, REG_SENTINELS["num"], [0, 1, 2]))]
+        ml_alt = REG_SENTINELS["num"]
+        if (desc["seed"] >> 4) % 3 == 1:
+            # targets in an object array next to the sentinel None
+            y_alt = y_ref.astype(object)
+            y_alt[np.isnan(y_ref)] = None
+            enc, ml_alt = "none_obj", None
+        runs = [("nan", lambda: call(y_ref, np.nan, [0, 1, 2])), (enc, lambda: call(y_alt, ml_alt, [0, 1, 2]))]
     else:
         y_ref = np.where(y_id < 0, np.nan, y_id.astype(float))
         y_alt, ml, classes = encode(y_id, desc["enc"])
